@@ -119,8 +119,21 @@ def main():
     baselines = {}
     for h, libs in jobs:
         baselines.setdefault(tuple(libs), None)
+    # "not by other programs created earlier": histories in which a command class appears INSIDE a requested library after a
+    # program was built (a plug-in registering late, a class defined in a notebook), each run with and without its earlier
+    # Program constructions; the two final look-ups must agree
+    LATE = [("lib_a", "Late"), ("lib_a", "Sum"), ("pkg_x.one", "LateOne"), ("lib_ab", "Late")]
+    pjobs = []
+    for _ in range(max(12, n // 6)):
+        mod, nm = rnd.choice(LATE)
+        libs = [mod.split(".")[0]] if rnd.random() < 0.5 else [mod]
+        pre = [["program", list(libs)]] + ([["program", rlibs(rnd)]] if rnd.random() < 0.4 else [])
+        h = pre + [["define", mod, nm]] + ([["program", list(libs)]] if rnd.random() < 0.3 else [])
+        pjobs.append((h, libs))
     with ThreadPoolExecutor(max_workers=16) as ex:
         res = list(ex.map(lambda j: child(libdir, j[0] + [["program", j[1]]]), jobs))
+        pres = list(ex.map(lambda j: (child(libdir, j[0] + [["program", j[1]]]),
+                                      child(libdir, [e for e in j[0] if e[0] != "program"] + [["program", j[1]]])), pjobs))
         bkeys = sorted(baselines)
         bres = list(ex.map(lambda libs: child(libdir, [["program", list(libs)]]), bkeys))
     for k, r in zip(bkeys, bres):
@@ -158,6 +171,14 @@ def main():
                           "what": "Program(libraries=%r) gives %s in a fresh process but %s after the history %r" % (
                               libs, short(base), short(obs), h),
                           "replay": {"history": h, "libraries": libs, "fresh": base, "after_history": obs}})
+    for (h, libs), (with_p, without_p) in zip(pjobs, pres):
+        a, b = with_p["out"][-1], without_p["out"][-1]
+        dist["events"]["late-definition histories"] = dist["events"].get("late-definition histories", 0) + 1
+        if a != b:
+            fails.append({"sig": "C19:history-dependent",
+                          "what": "Program(libraries=%r) gives %s after the history %r but %s when the earlier Program constructions are left out of that history" % (
+                              libs, short(a), h, short(b)),
+                          "replay": {"history": h, "libraries": libs, "after_history": a, "without_earlier_programs": b}})
     # requesting libraries that define the same command name must fail at construction
     for libs, must in ((("lib_a", "lib_ab"), "dup"), (("pkg_x", "pkg_xy"), "dup"), (("mpilot.libraries.eems",), "dup")):
         b = baselines.get(libs)
